@@ -1,5 +1,6 @@
 SPECIFICATION Spec
 CONSTANTS
+  GridRows = 2
   MaxRows = 2
   Scrutinees <- Small
   PatDepth = 1
